@@ -214,6 +214,8 @@ func (p *ParametersLiteral) UnmarshalJSON(data []byte) (err error) {
 	if err = json.Unmarshal(data, &aux); err != nil {
 		return
 	}
+	// absent (null) distributions replace the receiver's, like every other field
+	p.Xs, p.Xe = nil, nil
 	if aux.Xs != nil {
 		if p.Xs, err = ring.ParametersFromMap(aux.Xs); err != nil {
 			return
